@@ -403,6 +403,8 @@ CreateSolutionFrom(c) ==
                   stockConc |-> IF IsZero(Measure(ves[c.src].w[1].c, c.du)) THEN Zero
                                 ELSE Conc(ves[c.src].w[1].c, c.solute, c.nu, c.du),
                   ncomp |-> Cardinality(Support(ves[c.src].w[1].c)),
+                  \* a plain aliquot: the target IS the stock's concentration (no solvent at all), part of the stock taken
+                  aliquot |-> (~FromSolvIsVessel(c) /\ IsZero(c.y) /\ IsPos(c.fx) /\ Lt(c.fx, One)),
                   res |-> IF ok THEN "ok" ELSE "ValueError", cls |-> cls]
 
 FromAny == \E c \in FromCases : InShard(RatNum(c.fx) + RatNum(c.y) + Len(c.nu) + 2 * Len(c.du) + 3 * Len(c.tu) + Len(c.src)) /\ IsC(c.src) /\ c.src # c.n /\ (c.solvent \in Names => (IsC(c.solvent) /\ c.solvent \notin {c.src, c.n}))
